@@ -75,7 +75,13 @@ func (r *ConsecutiveBlankLinesRule) Check(ctx *linter.Context) ([]linter.Violati
 
 	_, startsInCode := linter.LineMask(ctx.SQL)
 
-	for lineNum, line := range ctx.Lines {
+	lines := ctx.Lines
+	if n := len(lines); n > 1 && lines[n-1] == "" {
+		// the text ends with a newline: what follows it is not a line
+		lines = lines[:n-1]
+	}
+
+	for lineNum, line := range lines {
 		trimmed := strings.TrimSpace(line)
 
 		// a blank line inside a multi-line literal or comment is content
@@ -142,6 +148,12 @@ func (r *ConsecutiveBlankLinesRule) Check(ctx *linter.Context) ([]linter.Violati
 // Returns the fixed content with consecutive blank lines reduced to maximum, and nil error.
 func (r *ConsecutiveBlankLinesRule) Fix(content string, violations []linter.Violation) (string, error) {
 	lines := strings.Split(content, "\n")
+	finalNewline := false
+	if n := len(lines); n > 1 && lines[n-1] == "" {
+		// the text ends with a newline: what follows it is not a line
+		lines = lines[:n-1]
+		finalNewline = true
+	}
 	result := make([]string, 0, len(lines))
 
 	_, startsInCode := linter.LineMask(content)
@@ -184,5 +196,8 @@ func (r *ConsecutiveBlankLinesRule) Fix(content string, violations []linter.Viol
 		}
 	}
 
+	if finalNewline {
+		result = append(result, "")
+	}
 	return strings.Join(result, "\n"), nil
 }
